@@ -326,7 +326,7 @@ def encodeField (env : Env) (f : Field) (v : Val) : Except Err Bits := do
       | _ => .error .outsideModel
     | .bytes =>
       match v with
-      | .bytes bs => .ok (if bs.isEmpty then zeros f.width else ofBytes bs)
+      | .bytes bs => .ok (if bs.isEmpty then (if f.varlen then [] else zeros f.width) else ofBytes bs)
       | _ => .error .outsideModel
   .ok (bits.take f.width)
 
